@@ -661,8 +661,36 @@ pub fn prepare_new_room(room_node: &RoomNode) -> Result<()> {
     let room = room_node.parse()?;
 
     //verify rights
-    for admin in &room_node.admin_nodes {
-        if !room.is_admin(&admin.node.verifying_key, admin.node.mdate) {
+    //the administrators are verified in history order, each against the administrators defined before it:
+    //an entry cannot be used to authorise itself.
+    //The first administrators are the ones defined when the room was created: they have the same date and the same author, who must be one of them
+    let mut admins: Vec<&UserNode> = room_node.admin_nodes.iter().collect();
+    admins.sort_by(|a, b| a.node.mdate.cmp(&b.node.mdate));
+    let mut history = Room {
+        id: room.id,
+        mdate: room.mdate,
+        ..Default::default()
+    };
+    if let Some(first) = admins.first() {
+        let creation_date = first.node.mdate;
+        let creator = first.node.verifying_key.clone();
+        for admin in &admins {
+            let author = &admin.node.verifying_key;
+            let date = admin.node.mdate;
+            if date == creation_date {
+                if !author.eq(&creator) {
+                    return Err(Error::InvalidNode(
+                        "New RoomNode Administrator not authorised".to_string(),
+                    ));
+                }
+            } else if !history.is_admin(author, date) {
+                return Err(Error::InvalidNode(
+                    "New RoomNode Administrator not authorised".to_string(),
+                ));
+            }
+            history.add_admin_user(admin.parse()?)?;
+        }
+        if !history.is_admin(&creator, creation_date) {
             return Err(Error::InvalidNode(
                 "New RoomNode Administrator not authorised".to_string(),
             ));
